@@ -170,6 +170,8 @@ static void write_data(zckCtx *zck, char *data, ssize_t in_size) {
 int main (int argc, char *argv[]) {
     struct arguments arguments = {0};
 
+    ensure_std_fds();
+
     /* Defaults */
     arguments.log_level = ZCK_LOG_ERROR;
     arguments.chunk_hashtype = ZCK_HASH_UNKNOWN;
